@@ -366,6 +366,7 @@ class PteraTransformer(NodeTransformer):
 
     def make_interaction(self, target, ann, value, orig=None, expression=False):
         """Create code for setting the value of a variable."""
+        prelude = []
         if ann and isinstance(target, ast.Name):
             self.annotated[target.id] = self._evaluate(ann)
             self.linenos[target.id] = target.lineno
@@ -384,6 +385,35 @@ class PteraTransformer(NodeTransformer):
         ):
             slc = target.slice
             slc = slc.value if isinstance(target.slice, ast.Index) else slc
+            if (
+                not expression
+                and not isinstance(slc, ast.Slice)
+                and self.should_instrument(target.value.id, ann)
+            ):
+                # The index is part of what we report: evaluate the value,
+                # then the index, once each and in Python's order
+                val_tmp, key_tmp = _gensym(), _gensym()
+                prelude = [
+                    ast.Assign(
+                        targets=[ast.Name(id=val_tmp, ctx=ast.Store())],
+                        value=value_arg,
+                        lineno=orig.lineno,
+                        col_offset=orig.col_offset,
+                    ),
+                    ast.Assign(
+                        targets=[ast.Name(id=key_tmp, ctx=ast.Store())],
+                        value=slc,
+                        lineno=orig.lineno,
+                        col_offset=orig.col_offset,
+                    ),
+                ]
+                target = ast.Subscript(
+                    value=target.value,
+                    slice=ast.Name(id=key_tmp, ctx=ast.Load()),
+                    ctx=ast.Store(),
+                )
+                slc = ast.Name(id=key_tmp, ctx=ast.Load())
+                value_arg = ast.Name(id=val_tmp, ctx=ast.Load())
             value_args = [
                 target.value.id,
                 self._wrap_call("__ptera_Key", "index", deepcopy(slc)),
@@ -428,7 +458,7 @@ class PteraTransformer(NodeTransformer):
                 col_offset=orig.col_offset,
             )
         else:
-            return [
+            return prelude + [
                 ast.Assign(
                     targets=[target],
                     value=new_value,
